@@ -583,9 +583,6 @@ def check_C04(chk):
             lines.append(f"decbig id=big{i}-{mode} mode={mode} v={sh['v']} seed={r.randint(1, 2**40)} adlen={sh['adlen']} "
                          f"mlen={sh['mlen']} tamper={sh['tam']} pos={pos} alias={sh['alias']} pf={sh['pf']} cls={r.choice('rhf')}")
     groups = chunks(lines, 400)
-    if chk.thorough:
-        # a rejected packet longer than 4 GiB (the length does not fit 32 bits), decrypted in place: every byte must be zero
-        groups.append([f"dechuge id=huge4g-{mode} mode={mode} v=128 mlen={(1 << 32) + 16 + 3 * j}" for j, mode in enumerate(('aead', 'siv'))])
     execs, _ = run_groups(chk, exe, groups)
     # the same packets on other build configurations (identical executions are judged once)
     seen = {json.dumps(ex, sort_keys=True) for ex in execs}
@@ -604,6 +601,15 @@ def check_C04(chk):
                     e['id'] = f"{cfg}:{e.get('id')}"
                 execs.append(ex)
                 groups.append(None)
+    if chk.thorough:
+        # a rejected packet longer than 4 GiB (the length does not fit 32 bits), decrypted in place: every byte must be zero
+        # (production build only: about 90 s per packet, the two run side by side)
+        huge = [f"dechuge id=huge4g-{mode} mode={mode} v=128 mlen={(1 << 32) + 16 + 3 * j}" for j, mode in enumerate(('aead', 'siv'))]
+        with ThreadPoolExecutor(2) as tp:
+            hres = list(tp.map(lambda ln: run_driver(exe, [ln], timeout=1500)[0], huge))
+        execs.append([{"e": "Reset", "id": "huge4g"}] + [e for r_ in hres for e in r_])
+        groups.append(None)
+        chk.cov['packets_above_4GiB'] = len(huge)
     judge(chk, exe, execs, lambda xi: ([f"reset id=x{xi}"] + groups[xi]) if groups[xi] else None, cost=lambda e: 1)
     groups = groups[:ngroups]
     nrej = sum(1 for ex in execs for e in ex if e.get('e') == 'DecBig' and e.get('res') == -1)
